@@ -32,7 +32,7 @@ if [ "$confirmed" = yes ]; then
   git -C /tmp/ev/repo checkout -q -- . ; git -C /tmp/ev/repo clean -fdq
   git -C /tmp/ev/repo apply "/verif/$DEST/patch.diff" || { echo "cannot apply to scratch repo"; exit 2; }
   for chk in "$ID" "$@"; do
-    out="$(cd /tmp/ev/verif && VERIF_REPO=/tmp/ev/repo ./run.sh "$chk" quick 2>/dev/null)"; rc=$?
+    out="$(cd /tmp/ev/verif && VERIF_HANG_S=40 VERIF_REPO=/tmp/ev/repo ./run.sh "$chk" quick 2>/dev/null)"; rc=$?
     if [ $rc -eq 1 ] && echo "$out" | grep -q "^VIOLATION property=$chk "; then r=detected; elif [ $rc -eq 0 ]; then r=missed; else r="error(rc=$rc)"; fi
     results="$results $chk=$r"
   done
